@@ -40,6 +40,7 @@ func isBlankText(t string) bool {
 
 var timeTokRe = regexp.MustCompile(`^<?\d{1,2}:\d{2}(am|pm)?>?$`)
 var durTokRe = regexp.MustCompile(`^[-+]?(\d+h)?(\d+m)?$`)
+
 // the placeholder of an open range: the ?-run right after "<indentation><start time> - " of an entry line
 var placeholderRe = regexp.MustCompile(`^([ \t]+<?\d{1,2}:\d{2}(?:am|pm)?>? *- *)(\?+)(.*)$`)
 
@@ -231,8 +232,8 @@ type recFacts struct {
 	dateLine    int
 	y, m, d     int
 	EOLs        map[string]bool
-	Indent      string // "" if the record has no indented line
-	Slash       *bool  // date separator
+	Indent      string          // "" if the record has no indented line
+	Slash       *bool           // date separator
 	Conv        map[string]bool // "12h"/"24h" among its time values
 	Dash        map[string]bool // "spaced"/"tight"
 	Placeholder map[int]bool    // lengths of ?-runs of open ranges
